@@ -146,6 +146,10 @@ func init() {
 		{Harness: pkgWitness + ".VerifHonestStep", Quick: p("n", 8, "signers", 2, "vc_inline", 1), Thorough: p("n", 32, "signers", 2, "vc_inline", 1), Covers: []string{"honest/growth-accepted", "honest/first-use-accepted", "honest/refresh-accepted"}},
 		{Harness: pkgWitness + ".VerifVCComplete", Quick: p("n", 8, "vc_inline", 1), Thorough: p("n", 32, "vc_inline", 1), Covers: []string{"vc/nontrivial-proof"}},
 	}})
+	// C08 / C09 after an arbitrary first request on the same witness instance (in-process state)
+	for _, id := range []string{"C08", "C09"} {
+		checks[id].Runs = append(checks[id].Runs, runSpec{Harness: pkgWitness + ".VerifUpdateTwoSteps", Quick: p("logs", 1, "signers", 1, "maxproof", 1, "replay", 0), Thorough: p("logs", 2, "signers", 1, "maxproof", 2, "replay", 0), Covers: []string{"two/both-accepted-same-log", "two/accepted-after-a-refusal-on-the-same-log"}})
+	}
 	strAssume := []string{"String domain: []byte/string are SMT-LIB strings (one code point per byte); base64 is an uninterpreted codec with dec(enc(x))=x, enc(x) free of CR/LF, enc(x)=\"\" iff x=\"\"", "bufio.Reader.ReadLine contract (4096-byte buffer; bodies bounded to 4000 bytes so the isPrefix case is outside the claim)", "strings.Split / proof line loops bounded by k"}
 	reg(&checkSpec{ID: "C11", Assumptions: strAssume, Runs: []runSpec{
 		{Harness: pkgBastion + ".VerifParseBodyHashLengths", Domain: sym.DomString, Solver: sym.CVC5, Quick: p("maxhash", 64), Thorough: p("maxhash", 64), Covers: []string{"parse/lengths-roundtrip"}},
@@ -204,6 +208,8 @@ func init() {
 	checks["C05"].Runs = append(checks["C05"].Runs, mainRun)
 	// identity agreement between witness map, bastion handler and feeders (C12), through the
 	// repository's own AsLogMap / config.NewLog
+	// the distributor's side of identity: every PUT names the ID of the log whose checkpoint it carries
+	checks["C12"].Runs = append(checks["C12"].Runs, runSpec{Harness: pkgRest + ".VerifDistribute", Domain: sym.DomString, Solver: sym.CVC5, Quick: p("logs", 2, "io_faults", 1), Thorough: p("logs", 3, "io_faults", 1), Covers: []string{"dist/pushed", "dist/all-succeeded"}})
 	for _, id := range []string{"C02", "C12"} {
 		checks[id].Runs = append(checks[id].Runs, runSpec{Harness: pkgOmni + ".VerifConfig", Domain: sym.DomString, Solver: sym.CVC5, Quick: p("logs", 3), Thorough: p("logs", 4), Covers: []string{"cfg/refused-at-start-up", "cfg/accepted"}})
 	}
